@@ -265,6 +265,8 @@ type sfwWorld struct {
 	ticker  *firewall.ConntrackCacheTicker
 	// forceChanged: the next applyRules changes the firewall's meaning although the rule lists are the same
 	forceChanged bool
+	// everUnsafe: the node's certificate listed an unsafe network at some point of the run
+	everUnsafe bool
 	stats   map[string]int
 	pktSeq  uint64
 	lastPass map[firewall.Packet]time.Time // last time the tuple passed, whatever the reason (routine cache slack)
@@ -494,6 +496,7 @@ func runSFW(rc *sk.RunCtx, focus string) {
 		vUnsafe = []netip.Prefix{netip.MustParsePrefix("192.168.50.0/24")}
 	}
 	ref.vNets, ref.vUnsafe = vNets, vUnsafe
+	w.everUnsafe = len(vUnsafe) > 0
 	for _, n := range vNets {
 		ref.vAddrs = append(ref.vAddrs, n.Addr())
 	}
@@ -667,7 +670,19 @@ func runSFW(rc *sk.RunCtx, focus string) {
 			sw.runUntil(sw.now + d)
 			rc.Count("ev.clock_advance", 1)
 		case 2: // reload
-			switch tp.Choose(5) {
+			switch tp.Choose(6) {
+			case 5: // the node's certificate is re-issued (same key, same networks) with another set of unsafe networks
+				nu := [][]netip.Prefix{nil, {netip.MustParsePrefix("192.168.50.0/24")}, {netip.MustParsePrefix("192.168.50.0/24"), netip.MustParsePrefix("192.168.60.0/24")},
+					{netip.MustParsePrefix("192.168.60.0/24")}}[tp.Choose(4)]
+				w.vSpec.id.issue(w.cas[0], cert.Version2, "victim", nb, na, vNets, nu, []string{"g1"})
+				w.vSpec.unsafeNets = nu
+				w.forceChanged = !slices.Equal(nu, ref.vUnsafe)
+				ref.vUnsafe = nu
+				if len(nu) > 0 {
+					w.everUnsafe = true
+				}
+				w.applyRules(ref.in, ref.out, false)
+				rc.Count("op.reload_reissued_unsafe_networks", 1)
 			case 4: // same rule lists, default_local_cidr_any flipped: tracked flows must be judged again
 				ref.localAny = !ref.localAny
 				deepMerge(w.baseCfg, map[string]any{"firewall": map[string]any{"default_local_cidr_any": ref.localAny}})
@@ -767,6 +782,9 @@ func (w *sfwWorld) genPacket(p *fwPeer) firewall.Packet {
 			a := w.ref.vUnsafe[0].Addr().As4()
 			a[3] = byte(1 + tp.Choose(200))
 			fp.LocalAddr = netip.AddrFrom4(a)
+		} else if w.everUnsafe {
+			// a network the node's certificate used to list (re-issued without it): no longer the node's
+			fp.LocalAddr = netip.AddrFrom4([4]byte{192, 168, byte(50 + 10*tp.Choose(2)), byte(1 + tp.Choose(200))})
 		} else {
 			fp.LocalAddr = w.ref.vAddrs[0]
 		}
